@@ -67,7 +67,7 @@ pub fn frame_of_digits(d: &str) -> Option<Frame> {
 }
 
 const FRESH: u32 = 0x5A5A01;
-const DECO: &[char] = &['*', '@', ';', ':', ',', ' ', '\t', '\r', '.', '-', '_', '#', '!', '?', '/', '\\', '(', ')', '[', ']', '"', '\'', '+', '=', '<', '>', '~', '|', 'g', 'h', 'x', 'z', 'G', 'X', 'Z', 'o', 'O', 'l', 'é', 'ß', 'Ω', 'Ж', '٣', '५', 'Ａ', 'ｆ', '１', '\u{0}', '\u{7f}', '\u{200b}', '😀'];
+const DECO: &[char] = &['*', '@', ';', ':', ',', ' ', '\t', '\r', '.', '-', '_', '#', '!', '?', '/', '\\', '(', ')', '[', ']', '"', '\'', '+', '=', '<', '>', '~', '|', 'g', 'h', 'x', 'z', 'G', 'X', 'Z', 'o', 'O', 'l', 'é', 'ß', 'Ω', 'Ж', '٣', '५', 'Ａ', 'ｆ', '１', '\u{0}', '\u{7f}', '\u{200b}', '😀', 'ﬀ', 'ﬁ', 'ﬂ', 'ﬃ', 'ﬄ', 'ẚ', 'ŉ', 'İ', 'ǰ', 'Ł', 'š', '‷'];
 
 fn hexstr(n: usize) -> impl Strategy<Value = String> {
     proptest::collection::vec(0u8..16, n).prop_map(|v| v.iter().map(|d| std::char::from_digit(*d as u32, 16).unwrap().to_ascii_uppercase()).collect())
@@ -122,7 +122,17 @@ fn digits_strategy() -> BoxedStrategy<(String, String)> {
 }
 
 fn case_strategy() -> impl Strategy<Value = LineCase> {
-    (digits_strategy(), proptest::collection::vec((0usize..=64, proptest::sample::select(DECO.to_vec())), 0..8), proptest::collection::vec(any::<bool>(), 64)).prop_map(|((digits, class), deco, lower)| LineCase { digits, deco, lower, class })
+    // now and then a long run of one padding character (total line length around 256, 512, 1024, 65536 bytes)
+    let pad = prop_oneof![
+        8 => Just(None),
+        1 => (proptest::sample::select(vec![' ', '\r', '\t', '-', ';']), prop_oneof![200usize..300, 480usize..540, 1000usize..1050, 65_480usize..65_560], 0usize..=64).prop_map(Some),
+    ];
+    (digits_strategy(), proptest::collection::vec((0usize..=64, proptest::sample::select(DECO.to_vec())), 0..8), proptest::collection::vec(any::<bool>(), 64), pad).prop_map(|((digits, class), mut deco, lower, pad)| {
+        if let Some((ch, n, at)) = pad {
+            deco.extend(std::iter::repeat((at, ch)).take(n));
+        }
+        LineCase { digits, deco, lower, class }
+    })
 }
 
 fn prefix_lines() -> Vec<String> {
